@@ -228,6 +228,11 @@ def main(modname, tier, seed, replay=None, extra_result_hook=None):
             oc = replay_case(mod, f["case"], ctx)
             if not oc.ok:
                 bad += 1
+            elif oc.inconclusive and "harness exception" in (oc.why or ""):
+                print("INFRA: replay of a reported failure crashed in the harness:\n" + oc.why)
+                res.extra["infra_errors"] = 1
+                res.write_evidence()
+                return 2
         if bad == 3:
             res.violations.append((path, f["why"]))
         else:
